@@ -43,6 +43,7 @@ def install_all(reg):
     algorithms.install_target(reg)
     algorithms.install_dfs(reg)
     algorithms.install_minimal(reg)
+    algorithms.install_wrappers(reg)
 
     _extra_tags(reg)
 
